@@ -29,7 +29,9 @@ class CsvReader(Filter[Iterable[str], Iterable[MutableSequence]]):
 
     def filter(self, items: Iterable[str]) -> Iterable[Dense]:
 
-        lines = iter(csv.reader(iter(filter(None,(i.strip() for i in items))), **self._dialect))
+        #an empty first or last field is still a field so we must not strip delimiters (e.g., tabs)
+        blanks = ' \t\n\r\v\f'.replace(self._dialect.get('delimiter',','),'')
+        lines = iter(csv.reader(iter(filter(None,(i.strip(blanks) for i in items))), **self._dialect))
         try:
             first = next(lines)
         except StopIteration:
